@@ -170,6 +170,10 @@ def library_crash(stderr):
         fn = ln.rsplit("(", 1)[0].strip()
         if fn.startswith(("runtime.", "sync.", "sync/", "internal/", "panic", "created by", "reflect.", "testing.")):
             continue
+        first = fn.split("/", 1)[0] if "/" in fn else ""
+        if "." not in first and not fn.startswith(("verifharness", "main.")):
+            # a standard-library function (its import path has no domain): whoever called it with these arguments is the next frame
+            continue
         if fn.startswith("verifharness/internal/memnet."):
             # the in-memory stand-ins for the socket layer: what they are handed comes straight from the library (a
             # released message whose context is nil crashes the real net.UDPConn.writeWithCfg in the same way)
